@@ -18,12 +18,9 @@ package patcher
 //@   ensures [requested] result.ResourcesStatus.Requested == metaData.Requested
 //@   ensures [allocated] result.ResourcesStatus.Allocated == metaData.Allocated
 //@   ensures [nonPreemptibleGroup] !metaData.Preemptible ==> result.ResourcesStatus.AllocatedNonPreemptible == metaData.Allocated
-//@   # GENUINE FINDING (C20, DESIGN section 0): property-derived clause that the real code violates:
 //@   # "non-preemptible resources equal the sums over its pods by ... CURRENT preemptibility": a group that is
-//@   # currently preemptible has no non-preemptible allocation. The code keeps the OLD value instead (stale).
-//@   ensures [finding-stale-nonpreemptible] metaData.Preemptible ==> emptyList(result.ResourcesStatus.AllocatedNonPreemptible)
-//@   # what the code really does for a preemptible group (code-derived, documents the finding below)
-//@   lemma [actualPreemptibleKeepsOld] metaData.Preemptible ==> sameList(result.ResourcesStatus.AllocatedNonPreemptible, originalStatus.ResourcesStatus.AllocatedNonPreemptible)
+//@   # currently preemptible has no non-preemptible allocation (was violated before fix 7ff8ad2: stale value kept)
+//@   ensures [preemptibleHasNoNonPreemptible] metaData.Preemptible ==> emptyList(result.ResourcesStatus.AllocatedNonPreemptible)
 //@   # fixpoint (field-wise; reflect.DeepEqual itself has no model): recomputing from the status just produced changes nothing
 //@   lemma [fixpointNonPreemptible1] !metaData.Preemptible ==> getStatusWithMetadata(metaData, *result).ResourcesStatus.AllocatedNonPreemptible == result.ResourcesStatus.AllocatedNonPreemptible
 //@   lemma [fixpointRequested] getStatusWithMetadata(metaData, *result).ResourcesStatus.Requested == result.ResourcesStatus.Requested && getStatusWithMetadata(metaData, *result).ResourcesStatus.Allocated == result.ResourcesStatus.Allocated
